@@ -75,6 +75,8 @@ RULE_GROUPS: Dict[str, Callable] = {
     'bd.edges': bd.rule_edges,
     'bd.constructs': bd.rule_constructs,
     'bd.node_map_and_validation': bd.rule_node_map_and_validation,
+    'bd.builder_effects': bd.rule_builder_effects,
+    'on.publish_atomic': on.rule_publish_atomic,
     'bd.rejections': bd.rule_rejections,
     'ex.validation_first': ex.rule_validation_first,
     'ex.decision_table': ex.rule_decision_table,
@@ -193,6 +195,12 @@ RULES: Dict[str, Tuple[str, str]] = {
     'OO-3': ('bd.constructs', 'the builder translates InputOneOf into a flagged head with the ordered candidate list and flags '
                               'every candidate is_oneof_child'),
     'RC-5': ('bd.constructs', 'the builder records start_node / max_iterations of a RecurrentSubGraph on the destination node'),
+    'BD-5': ('bd.builder_effects', 'building writes only to the builder\'s own state and to objects it created (no state on node '
+                                   'classes, marks, modules)'),
+    'BD-7': ('bd.builder_effects', 'graph and registry updates inside a mark branch are unconditional'),
+    'PB-1': ('on.publish_atomic', 'no suspension point between obtaining a node value from its execution and publishing it'),
+    'RC-6': ('rd.filtered_view', 'the dag of a recurrent re-iteration (the set that is re-armed) is not cut from a view that drops '
+                                 'case_branch edges'),
     'BD-6': ('bd.node_map_and_validation', 'every visited node is in the node map; build returns copies'),
     'VL-1': ('bd.node_map_and_validation', 'every node taken from the worklist is validated (all _check_* rules) before any other use'),
     'VL-2': ('bd.node_map_and_validation', 'every node-valued field of every mark reaches the worklist'),
@@ -339,7 +347,7 @@ PROPERTIES['C02'].floors.update({'WK-g': 2, 'ST-1': 2})
 _p(PropertySpec(
     'C03',
     [('RD-1', None), ('RD-2', None), ('RD-3', None), ('RD-4', None), ('RD-5', None), ('RD-6', None), ('SW-3', None),
-     ('ST-1', None), ('OO-6', None), ('ER-6', None), ('SH-1', _viol)],
+     ('ST-1', None), ('OO-6', None), ('ER-6', None), ('PB-1', None), ('RC-6', None), ('SH-1', _viol)],
     decides='the launch is gated by the readiness wait, readiness is strict over every store state (absent / hidden / Recurrent '
             'predecessors never release a node), argument names and the switch indirection agree between builder, readiness and '
             'argument delivery, the input node gets the caller\'s input_kwargs, failure objects become values only in one-of dags '
@@ -353,7 +361,7 @@ _p(PropertySpec(
 
 _p(PropertySpec(
     'C09',
-    [('SW-1', None), ('SW-3', None), ('SW-4', None), ('SW-6', None), ('WK-a', None), ('ER-5', None),
+    [('SW-1', None), ('SW-3', None), ('SW-4', None), ('SW-6', None), ('WK-a', None), ('ER-5', None), ('RC-6', None),
      ('WK-b', _mentions('switch', '_add_case_result')), ('RD-3', _mentions('is_switch', 'case_branch')), ('SH-1', _viol)],
     decides='laziness (every sub-dag is cut from the view without case_branch edges, whose filter is evaluated over the attribute '
             'domain), routing (readiness and argument delivery both resolve a switch to the selected case; the builder writes and '
@@ -384,7 +392,7 @@ _p(PropertySpec(
 _p(PropertySpec(
     'C11',
     [('RC-1', None), ('RC-2', None), ('RC-4', None), ('RC-5', None), ('RD-2', None), ('SW-4', None), ('ST-1', None),
-     ('ON-3', None), ('SW-1', _mentions('sub-dag')), ('RD-5', None), ('SH-1', _viol)],
+     ('ON-3', None), ('SW-1', _mentions('sub-dag')), ('RD-5', None), ('PB-1', None), ('RC-6', None), ('SH-1', _viol)],
     decides='the re-execution loop is bounded by exactly max_iterations and runs the subgraph once per iteration, the marker data '
             'is handed over before every run through a per-run slot the argument builder reads, consumers are never released on a '
             'Recurrent or hidden result, re-arming resets every store readiness and routing read and happens only in recurrent '
@@ -423,8 +431,8 @@ _p(PropertySpec(
 
 _p(PropertySpec(
     'C15',
-    [('BD-1', None), ('BD-2', None), ('BD-3', None), ('BD-4', None), ('BD-6', None), ('VL-2', None), ('SW-6', None),
-     ('OO-3', None), ('RC-5', None), ('RD-3', None)],
+    [('BD-1', None), ('BD-2', None), ('BD-3', None), ('BD-4', None), ('BD-5', None), ('BD-6', None), ('BD-7', None), ('VL-2', None),
+     ('SW-6', None), ('OO-3', None), ('RC-5', None), ('RD-3', None)],
     decides='every collected mark is translated, every mark branch delivers its parameter by exactly one kwarg_name edge into the '
             'consumer, the implicit input edge exists only for mark-less nodes, every declared node reaches the worklist and the '
             'node map, the three constructs write the attributes the manager reads, build returns copies',
@@ -436,7 +444,7 @@ _p(PropertySpec(
 
 _p(PropertySpec(
     'C16',
-    [('VL-1', None), ('VL-2', None), ('VL-3', None), ('VL-4', None), ('VL-5', None)],
+    [('VL-1', None), ('VL-2', None), ('VL-3', None), ('VL-4', None), ('VL-5', None), ('BD-5', None), ('BD-7', None), ('RC-5', None)],
     decides='every visited node is validated first, every node-valued field of every mark is visited, each of the nine rejection '
             'classes is raised under its documented condition in code reachable from build_dag / build_dag_single / build_node, '
             'the recurrent validations dominate the construction of the DAG, every public mark is translated or rejected',
